@@ -7,7 +7,8 @@ BUILD = os.path.join(VERIF, ".build")
 HARNESS_DIR = os.path.join(VERIF, "harness")
 HARNESS_BIN = os.path.join(BUILD, "harness", "release", "t2n-harness")
 # the same harness built WITHOUT debug assertions and overflow checks (profile `plain`)
-HARNESS_PLAIN = os.path.join(BUILD, "harness", "plain", "t2n-harness")
+# ... and WITHOUT `--cfg text2num_verif`: exactly the configuration a user of the crate compiles
+HARNESS_PLAIN = os.path.join(BUILD, "harness-plain", "plain", "t2n-harness")
 LEAN_DIR = os.environ.get("T2N_LEAN_DIR", os.path.join(VERIF, "lean"))
 DRIVER_BIN = os.environ.get("T2N_DRIVER", os.path.join(LEAN_DIR, ".lake", "build", "bin", "t2n-driver"))
 LANGS = ["en", "fr", "es", "pt", "it", "de", "nl"]
@@ -30,7 +31,9 @@ def build_harness():
     r = sh("cargo build --release --offline 2>&1", cwd=HARNESS_DIR, check=False)
     if r.returncode != 0:
         return False, r.stdout[-6000:]
-    r = sh("cargo build --profile plain --offline 2>&1", cwd=HARNESS_DIR, check=False)
+    # RUSTFLAGS in the environment replaces build.rustflags of .cargo/config.toml: no --cfg text2num_verif in this build
+    r = sh("RUSTFLAGS='-Aunexpected_cfgs -Adeprecated' cargo build --profile plain --offline --target-dir %s 2>&1"
+           % os.path.join(BUILD, "harness-plain"), cwd=HARNESS_DIR, check=False)
     if r.returncode != 0:
         return False, r.stdout[-6000:]
     return True, ""
